@@ -77,6 +77,9 @@ structure GS where
   data : List Dir := []
   offset : Nat := 0
   size : Nat := 0
+  /-- Ghost (not part of the compiler's state, never read by the generators): the string literals
+      generated so far, with their labels. -/
+  strs : List (String × List Byte) := []
   deriving Repr, Inhabited
 
 /-- What the visitors read: the symbol table, `currentScope`, the current frame (index of its
@@ -162,7 +165,8 @@ def genString (reg : Reg) (bytes : List Byte) : M Code := do
   let s ← get
   let label := "_string" ++ toString s.stringCount
   set { s with stringCount := s.stringCount + 1,
-               data := s.data ++ (Dir.label .plain label :: (packString bytes).map fun (w : Word) => Dir.data w.toInt) }
+               data := s.data ++ (Dir.label .plain label :: (packString bytes).map fun (w : Word) => Dir.data w.toInt),
+               strs := s.strs ++ [(label, bytes)] }
   match reg with
   | .A => pure [lLDAC label]
   | .B => pure [lLDBC label]
